@@ -112,6 +112,9 @@ def build(device, desc, loop=None) -> BuiltDb:
             chars.append(ch)
             out.char_objs[(si, ci)] = ch
         svc = gatt.Service(s['uuid'], chars, primary=s['primary'], included_services=[svc_objs[j] for j in s['includes']])
+        if s.get('decl_perms') is not None:
+            # the application restricts the service declaration itself (assigned after construction: the constructor fixes READABLE)
+            svc.permissions = att.Attribute.Permissions(s['decl_perms'])
         svc_objs.append(svc)
     # add in index order; services already pulled in as an include are skipped by bumble itself
     for svc in svc_objs:
